@@ -254,6 +254,7 @@ void check_state(const AddrMan& am, const Model& m, const std::string& hist, std
     }
 }
 
+int g_select_full_depth = 4;
 // probes run once per newly reached state
 void probe_state(AddrMan& am, const std::string& hist)
 {
@@ -291,31 +292,37 @@ void probe_state(AddrMan& am, const std::string& hist)
         if (v.size() > 1 || (v.size() == 0 && !all.empty())) fail("getaddr-max", "GetAddr(max_addresses=1) returned " + std::to_string(v.size()) + " addresses", hist);
         as_set(v, "max1");
     }
-    // --- Select
+    // --- Select. An entry tried within the last 10 minutes is accepted with 1% probability per round, which makes one
+    // call cost ~10 ms on these sparse tables; such states get one call (only up to depth `g_select_full_depth`),
+    // all others the four (new_only, network set) combinations below.
+    bool recently_tried = false;
+    for (auto& [i, info] : s.info) recently_tried |= (NOW - info.m_last_try < 10min);
+    struct SelCase { bool new_only; int nets; int seed; };
+    static const SelCase SEL[4] = {{false, 0, 0}, {true, 0, 1}, {false, 1, 1}, {true, 2, 0}};
     const std::unordered_set<Network> netsets[3] = {{}, {NET_IPV4}, {NET_ONION, NET_I2P, NET_CJDNS, NET_IPV6}};
-    for (int sd = 0; sd < 2; sd++)
-        for (bool new_only : {false, true})
-            for (auto& nets : netsets) {
-                if ((sd == 0) != (new_only == nets.empty())) continue; // each of the 6 (new_only, network set) combinations once, alternating the rng seed
-                reseed(am, SEED[sd]);
-                auto [addr, last_try] = am.Select(new_only, nets);
-                size_t cand = 0;
-                for (int i : all) {
-                    if (!nets.empty() && !nets.count(U[i].svc.GetNetwork())) continue;
-                    if (new_only && s.tried_slots.count(i)) continue;
-                    cand++;
-                }
-                if (!addr.IsValid()) {
-                    g_select_empty++;
-                    if (cand) fail("select-empty", "Select() returned nothing although " + std::to_string(cand) + " stored addresses match", hist);
-                    continue;
-                }
-                g_select_hits++;
-                int i = uidx(addr);
-                if (i < 0 || !all.count(i)) { fail("select-unknown", "Select() returned an address that is not stored: " + addr.ToStringAddrPort(), hist); continue; }
-                if (new_only && s.tried_slots.count(i)) fail("select-new-only", "Select(new_only) returned an address from the tried table", hist);
-                if (!nets.empty() && !nets.count(U[i].svc.GetNetwork())) fail("select-network", "Select(networks) returned an address of another network", hist);
-            }
+    for (int k = 0; k < 4; k++) {
+        if (recently_tried && (k > 0 || (int)hist.size() > g_select_full_depth)) break;
+        const bool new_only = SEL[k].new_only;
+        const auto& nets = netsets[SEL[k].nets];
+        reseed(am, SEED[SEL[k].seed]);
+        auto [addr, last_try] = am.Select(new_only, nets);
+        size_t cand = 0;
+        for (int i : all) {
+            if (!nets.empty() && !nets.count(U[i].svc.GetNetwork())) continue;
+            if (new_only && s.tried_slots.count(i)) continue;
+            cand++;
+        }
+        if (!addr.IsValid()) {
+            g_select_empty++;
+            if (cand) fail("select-empty", "Select() returned nothing although " + std::to_string(cand) + " stored addresses match", hist);
+            continue;
+        }
+        g_select_hits++;
+        int i = uidx(addr);
+        if (i < 0 || !all.count(i)) { fail("select-unknown", "Select() returned an address that is not stored: " + addr.ToStringAddrPort(), hist); continue; }
+        if (new_only && s.tried_slots.count(i)) fail("select-new-only", "Select(new_only) returned an address from the tried table", hist);
+        if (!nets.empty() && !nets.count(U[i].svc.GetNetwork())) fail("select-network", "Select(networks) returned an address of another network", hist);
+    }
     int code = check_code(am);
     if (code != 0) fail("checkaddrman-after-queries-" + std::to_string(code), "CheckAddrman() returned " + std::to_string(code) + " after GetAddr/Select", hist);
     // --- serialization round trip
@@ -657,6 +664,12 @@ int run()
         tm("impl_key", 2000, [&] { impl_key(*am, ""); });
         tm("reload", 200, [&] { std::string e; reload(*am, *NGM, &e); });
         tm("probe_state", 100, [&] { probe_state(*am, ""); });
+        tm("Select(any)", 200, [&] { reseed(*am, SEED[0]); am->Select(false, {}); });
+        tm("Select(new,ipv4)", 200, [&] { reseed(*am, SEED[1]); am->Select(true, {NET_IPV4}); });
+        tm("GetAddr", 200, [&] { am->GetAddr(0, 0, std::nullopt, false); });
+        am->Attempt(U[0].svc, true, NOW);
+        tm("Select(any) recently tried", 200, [&] { reseed(*am, SEED[0]); am->Select(false, {}); });
+        tm("probe_state recently tried", 50, [&] { probe_state(*am, ""); });
         std::string h; h.push_back(0); h.push_back(4); h.push_back(1);
         tm("replay depth3", 500, [&] { std::string k; replay(h, k); });
         return 0;
